@@ -6,6 +6,16 @@ PY = "/venv/bin/python"
 
 CHECKS = {
     # id: (engine, category, technique, text, note, design_ref)
+    "C02": ("E1-choice", "exploration",
+            "exhaustive enumeration of all stack specs up to a node bound, each checked against a Python-list reference model on every index",
+            "All nestings with <=4 (quick) / <=5 (thorough) nodes of KDSubset (every index list of length <=2 over [-L,L) plus identity/reversed/duplicating), KDConcatDataset (1-3 parts, balanced sampling), identity KDWrappers and three shipped subset wrappers over bases of size 0..3: every index in [-len,len) and every item is compared with the composed list model, bulk accessors and the getall utilities with the per-sample accessors, and through linear chains every introspection query (root, wrapper lists/lookups, attribute and shape delegation, dispose / with).",
+            "Trusted: list reference model; root datasets with list semantics for negative indices. Introspection through multi-part concats is outside the claim.",
+            "DESIGN.md section 5 C02"),
+    "C03": ("E1-choice", "exploration",
+            "exhaustive enumeration of all class layouts up to a length bound x full small parameter grids, compared with per-wrapper specifications",
+            "All class layouts of length 0..5 (quick) / 0..7 (thorough) over 3 declared classes x every parameter combination of the ten subset-family wrappers (percent alphabet incl. 0, 1 and non-integer boundaries, all index bounds, seeds, repetition counts, shots): selected ids are compared with exact specs where documented and relational specs (contiguous, monotone, complementary ranges partition) where rounding is not; seeded selections are rebuilt under a different global RNG state; constructors run under a deterministic line-event horizon (termination).",
+            "Trusted: the per-wrapper specs in kdverif/props/c03.py. Explicit AssertionError/NotImplementedError/ValueError rejections are accepted; empty datasets are excluded for OversamplingWrapper.",
+            "DESIGN.md section 5 C03"),
     "C04": ("E3-lockstep", "model_checking",
             "explicit-state enumeration of the bounded configuration space; reference-model traces replayed in lock-step against the real generator",
             "Every configuration (N<=6 quick / <=9 thorough, every B, drop_last, drop_last_batch_size, every budget value of the three kinds, 59..507 interleaved config sets) is run on the real InterleavedSampler one next() at a time against a declarative reference model; set_epoch announcements, indices, batch-boundary flags, stopping point and termination (explicit horizon) are compared on every transition. Unit tests pin a handful of these configurations.",
